@@ -10,7 +10,7 @@ for spec in "$@"; do
   if ! git -C /repo apply --3way $patch >> $LOG 2>&1; then echo "APPLY-FAILED $prop/$var" >> $LOG; git -C /repo checkout -- . ; git -C /repo reset -q --hard HEAD; continue; fi
   git -C /repo reset -q   # unstage (3way stages)
   for c in ${checks//,/ }; do
-    out=$(./check $c quick 2>&1 | grep -E "^(OK|VIOLATION|TOOL-ERROR|KNOWN)" | head -3)
+    out=$(./check $c quick 2>&1 | grep -E "^(OK|VIOLATION|TOOL-ERROR)" | head -3)
     echo "  [$c] $out" >> $LOG
   done
   git -C /repo checkout -- . ; git -C /repo status --short | grep -v '^??' >> $LOG
